@@ -223,6 +223,9 @@ pub struct TrainGenCfg {
     /// window / n-gram sizes >= 1 and n <= window (the well-behaved region)
     pub tame: bool,
     pub tag_dict: bool,
+    /// small alphabet, every sentence tagged, more word boundaries: tokens repeat with
+    /// ambiguous tags
+    pub tag_focus: bool,
 }
 
 pub fn train_case(g: TrainGenCfg) -> impl Strategy<Value = TrainCase> {
@@ -237,7 +240,21 @@ pub fn train_case(g: TrainGenCfg) -> impl Strategy<Value = TrainCase> {
         any::<u16>(),
     )
         .prop_map(move |(pal, (cw, cn, tw, tn, dictn, solver), sents, dict_sel, eval, n_tags, tdict, mode)| {
-            let palette = gen::resolve_palette(&pal, false);
+            let mut palette = gen::resolve_palette(&pal, false);
+            let mut sents = sents;
+            let mut n_tags = n_tags;
+            if g.tag_focus {
+                palette.truncate(3);
+                n_tags = n_tags.max(1);
+                for (k, s) in sents.iter_mut().enumerate() {
+                    s.tagged = true;
+                    for (i, l) in s.labels.iter_mut().enumerate() {
+                        if (i + k) % 2 == 0 && *l == NB {
+                            *l = WB;
+                        }
+                    }
+                }
+            }
             let corpus: Vec<RefSentence> =
                 sents.iter().map(|s| resolve_corpus_sentence(s, &palette, n_tags)).collect();
             // dictionary words cut from corpus substrings
